@@ -48,6 +48,7 @@ def run(ck):
     seq(ck)
     builders(ck)
     severity_comparisons(ck)
+    evaluated_once(ck)
 
 
 def level(ck):
@@ -383,3 +384,29 @@ def level_by_cases(ck, F, pr, fl, val):
     ck.ob("C16-O1", sitestr(fl), not bad, "%d/%d (type, threshold) pairs evaluated from the source agree with severity >= threshold" % (n_eval, n_eval) if not bad else
           "wrong verdicts: %s" % bad[:6], key="LevelFilter::filter|verdict")
     return True
+
+
+def evaluated_once(ck):
+    """C16-O8: the stateful handlers (duplicate filter, sequence counter) describe the sequence of messages *they saw*; the pipeline
+    shows each message to each handler once.  Two loops over the handler list that both start at its beginning show the leading
+    handlers every message twice: the duplicate filter then meets its own previous text and drops everything."""
+    F = ck.facts
+    ck.rule("C16-O8", "Pipeline::process invokes Handler::process from one place: no second pass over the handler list (a 'pre-check' of the leading filters) shows a message to a handler twice")
+    proc = F.fn("QtLogger::Pipeline::process")
+    ck.touch(proc)
+    vcalls = [n for n in proc.calls() if n.get("virtual") and name_is(n.get("callee"), "QtLogger::Handler::process")]
+    sites = {(c.get("l"), c.get("c")) for c in vcalls}
+    if len(sites) <= 1:
+        ck.ob("C16-O8", sitestr(proc, vcalls[0]) if vcalls else sitestr(proc), bool(vcalls), "Pipeline::process runs the handlers from one call site", key="Pipeline::process|evaluated-once")
+        return
+    loops = []
+    for c in vcalls:
+        ls = enclosing_loops(proc, c)
+        if ls and ls[0]["id"] not in [l["id"] for l in loops]:
+            loops.append(ls[0])
+    whole = [l for l in loops if l.get("k") == "rangefor" and any(is_this_field(x, "QtLogger::Pipeline::m_handlers") for x in walk(l.get("range") or {}))]
+    definite = len(whole) >= 2
+    ck.ob("C16-O8", sitestr(proc, vcalls[-1]), False if definite else None,
+          "Pipeline::process has %d loops over the whole handler list that each call process(): the handlers the first loop reaches are shown every message a second time by the other — "
+          "a DuplicateFilter among them compares the message with itself and drops it, a SeqNumberAttr counts it twice" % len(whole) if definite else
+          "Pipeline::process invokes Handler::process from %d places" % len(sites), key="Pipeline::process|evaluated-once")
